@@ -15,7 +15,7 @@ import os
 import subprocess
 import sys
 
-from harness.core import Check, run_tlc, must_pass, seed, tla_val, scratch, MachineryError, VERIF
+from harness.core import Check, run_tlc, must_pass, seed, tla_val, scratch, MachineryError, VERIF, REPO
 from harness import pt as PT
 
 
@@ -27,7 +27,7 @@ def run_scenario(args, timeout=120):
     with open(apath, "w") as fh:
         json.dump(args, fh)
     env = dict(os.environ)
-    env["PYTHONPATH"] = "/repo:" + VERIF
+    env["PYTHONPATH"] = REPO + ":" + VERIF
     try:
         p = subprocess.run([sys.executable, "-m", "harness.pt", apath], cwd=VERIF, env=env, timeout=timeout,
                            stdout=subprocess.PIPE, stderr=subprocess.STDOUT, text=True)
